@@ -30,6 +30,7 @@ type SpecEnv struct {
 	allocBefore *Term
 	paramsFirst bool // ensures: parameter names mean entry values
 	params      map[string]SVal
+	rngCell     int    // iteration invariants of a sync.Map.Range callback: cell of the visited set
 	exit        *State // sets clauses: the state at the callee's return, read through post(e)
 }
 
@@ -275,6 +276,21 @@ func (env *SpecEnv) ident(name string) SVal {
 	}
 	unsupp("unknown identifier %q in spec", name)
 	return SVal{}
+}
+
+// mapIterOfLoop finds the iterator of the map range loop the invariant belongs to (its Next is in the loop header).
+func (env *SpecEnv) mapIterOfLoop() *mapIter {
+	if env.loop == nil || env.fr == nil {
+		return nil
+	}
+	for _, ins := range env.loop.Header.Instrs {
+		if nx, ok := ins.(*ssa.Next); ok {
+			if it := env.fr.iters[nx.Iter]; it != nil && !it.isStr {
+				return it
+			}
+		}
+	}
+	return nil
 }
 
 func (env *SpecEnv) loopIndexCell() (int, bool) {
@@ -704,6 +720,46 @@ func (env *SpecEnv) call(n *ECall) SVal {
 		default:
 			return SVal{V: scalar(App("unbox_seq", SSeq, Select(Select(env.st().heapGet("SM:val", valS), id), k))), G: "Seq"}
 		}
+	case "lruhas", "lruval", "lrubytes", "lrutag":
+		// lruhas(cache, key) / lruval (reference payload) / lrubytes ([]byte or string payload) / lrutag (dynamic type id):
+		// the finite-map model of an lru.Cache identified by its pointer (string keys)
+		lruDeclare()
+		c := env.eval(n.Args[0])
+		if c.V.T == nil {
+			unsupp("%s: first argument must be a *lru.Cache", n.Fn)
+		}
+		id := lruID(c.V.T)
+		kv := env.eval(n.Args[1])
+		k := App("box_seq", SInt, kv.V.T)
+		domS, valS := smSorts()
+		switch n.Fn {
+		case "lruhas":
+			return gBool(Select(Select(env.st().heapGet("LRU:dom", domS), id), k))
+		case "lrutag":
+			return gInt(Select(Select(env.st().heapGet("LRU:tag", valS), id), k))
+		case "lruval":
+			return SVal{V: scalar(Select(Select(env.st().heapGet("LRU:val", valS), id), k)), G: "Ref"}
+		default:
+			return SVal{V: scalar(App("unbox_seq", SSeq, Select(Select(env.st().heapGet("LRU:val", valS), id), k))), G: "Seq"}
+		}
+	case "rvisited":
+		// rvisited(k): in an iteration invariant of a sync.Map.Range callback - key k has been handed to the callback
+		if env.rngCell == 0 {
+			unsupp("rvisited(k) needs the iteration invariant of a sync.Map.Range callback")
+		}
+		kv := env.eval(n.Args[0])
+		return gBool(Select(env.st().cells[env.rngCell].T, App("box_seq", SInt, kv.V.T)))
+	case "visited", "nvisited":
+		// visited(k): the map range loop of this invariant has already handed out key k; nvisited(): how many keys so far
+		mi := env.mapIterOfLoop()
+		if mi == nil {
+			unsupp("%s() needs the invariant of a range loop over a map", n.Fn)
+		}
+		if n.Fn == "nvisited" {
+			return gInt(env.st().cells[mi.ncell].T)
+		}
+		kv := env.eval(n.Args[0])
+		return gBool(Select(env.st().cells[mi.cell].T, kv.V.T))
 	case "samearray":
 		// samearray(a, b): the two slices share their backing array
 		a := env.eval(n.Args[0])
